@@ -38,6 +38,74 @@ def _eq(L, rule, cons, where, got, ref, what, wit_prefix="", vocab=None):
     raise AnalysisError(f"{cons}: {wit}")
 
 
+def _custom_source_bypass(prog: Program, L: Ledger) -> None:
+    """B (custom source): an attribute the step reads that can be given by the caller (`update_masses(masses)`) and
+    otherwise defaults to a live source G (`self.atoms.get_masses()`) is the *only* place G may be read: any other method
+    that reads G itself and stores into something the step reads works with the atoms' own value where the caller supplied
+    another."""
+    fb = prog.cls("ForceBias")
+    classes = [fb] + prog.subclasses(fb, strict=True)
+    step = prog.lookup_method(fb, "step")
+    step_reads = {n.attr for c in classes for f in [c.methods.get("step")] if f is not None for n in ast.walk(f.node)
+                  if isinstance(n, ast.Attribute) and isinstance(n.value, ast.Name) and n.value.id == "self"}
+    customs = []  # (attr, default source text, updater)
+    for c in classes:
+        for f in c.methods.values():
+            if f.name == "__init__":
+                continue
+            a = f.node.args
+            names = [x.arg for x in a.args]
+            defaults = dict(zip(names[len(names) - len(a.defaults):], a.defaults))
+            optional = {n_ for n_, d_ in defaults.items() if isinstance(d_, ast.Constant) and d_.value is None}
+            if not optional:
+                continue
+            default_src = {}
+            for st in walk_no_nested(f.node):
+                if isinstance(st, ast.If) and isinstance(st.test, ast.Compare) and isinstance(st.test.left, ast.Name) and st.test.left.id in optional \
+                        and isinstance(st.test.ops[0], ast.Is) and isinstance(st.test.comparators[0], ast.Constant) and st.test.comparators[0].value is None:
+                    for b in st.body:
+                        if isinstance(b, ast.Assign) and len(b.targets) == 1 and isinstance(b.targets[0], ast.Name) and b.targets[0].id == st.test.left.id:
+                            default_src[st.test.left.id] = norm(b.value)
+                if isinstance(st, ast.Assign) and isinstance(st.value, ast.IfExp) and isinstance(st.value.test, ast.Compare) and isinstance(st.value.test.left, ast.Name) \
+                        and st.value.test.left.id in optional and isinstance(st.value.test.comparators[0], ast.Constant) and st.value.test.comparators[0].value is None:
+                    arm = st.value.body if isinstance(st.value.test.ops[0], ast.Is) else st.value.orelse
+                    default_src[st.value.test.left.id] = norm(arm)
+            if not default_src:
+                continue
+            # the parameter (possibly reshaped) ends in a self attribute
+            for st in walk_no_nested(f.node):
+                if isinstance(st, ast.Assign):
+                    for t in st.targets:
+                        if isinstance(t, ast.Attribute) and isinstance(t.value, ast.Name) and t.value.id == "self":
+                            used = {n_.id for n_ in ast.walk(st.value) if isinstance(n_, ast.Name)}
+                            for p_, g_ in default_src.items():
+                                if p_ in used and "self." in g_:
+                                    customs.append((t.attr, g_, f))
+    n = 0
+    for attr, g, upd in customs:
+        if attr not in step_reads:
+            continue
+        for c in classes:
+            for f in list(c.methods.values()) + list(c.setters.values()):
+                if f.name == "__init__" or f is upd:
+                    continue
+                reads_g = [x for x in ast.walk(f.node) if isinstance(x, (ast.Call, ast.Attribute)) and norm(x) == g]
+                if not reads_g:
+                    continue
+                n += 1
+                written = {t.attr if isinstance(t, ast.Attribute) else (t.value.attr if isinstance(t, ast.Subscript) and isinstance(t.value, ast.Attribute) else None)
+                           for st in walk_no_nested(f.node) if isinstance(st, (ast.Assign, ast.AugAssign))
+                           for t in (st.targets if isinstance(st, ast.Assign) else [st.target])
+                           if (isinstance(t, ast.Attribute) and norm(t.value) == "self") or (isinstance(t, ast.Subscript) and isinstance(t.value, ast.Attribute) and norm(t.value.value) == "self")}
+                hit = sorted((written - {None}) & step_reads)
+                if hit or f.name == "step":
+                    L.violation("B", f"{f.qualname}:bypasses-custom-{attr}", f"{f.module.relpath}:{reads_g[0].lineno}",
+                                f"{f.qualname} reads `{g}` itself{' and stores into `self.' + hit[0] + '`, which step() reads' if hit else ''}; `self.{attr}` is what {upd.qualname}(...) lets the caller supply (defaulting to `{g}`): the two disagree as soon as custom values were given",
+                                f"{upd.name}(custom values), then {f.name}: displacement components exceed delta·(m_min/m)^p of the masses in force", f"{attr}<-{g}")
+    L.ok("B", f"custom-sources:{len(customs)}:other-readers:{n}", fb.where)
+    L.floor("caller-suppliable sources read by the force-bias step", len({c_[0] for c_ in customs if c_[0] in step_reads}), 1)
+
+
 def run(prog: Program, L: Ledger) -> None:
     L.explanation = (
         "C13 decided on ForceBias: step(), calculate_gamma(), get_zeta() and calculate_trial_probability() are value-numbered "
@@ -48,6 +116,7 @@ def run(prog: Program, L: Ledger) -> None:
         "sampled distribution (consequences of ρ by the rejection-sampling lemma)."
     )
     L.rule("B", "zeta ∈ [−1,1) from the simulation generator on every definition; displacement = zeta·delta·(min(M)/M)^p; applied through momenta/positions unchanged")
+    _custom_source_bypass(prog, L)
     L.rule("Γ", "gamma = clip(F·delta/(2·kB·T), −g, +g), g ≤ ln(DBL_MAX); denominator = exp(γ) − exp(−γ)")
     L.rule("ρ", "trial probability = (e^{γ} − e^{γ(2ζ−1)})/(e^γ − e^{−γ}) for ζ>0 and (e^{γ(2ζ+1)} − e^{−γ})/(e^γ − e^{−γ}) for ζ<0; zero denominator → constant in (0,1]")
     L.rule("A", "exactly one set_positions per step on every path, after the rejection loop; loop re-draws only unconverged entries and exits when all converged")
